@@ -58,7 +58,7 @@ def edit_new_sig(rng, new):
     for _ in range(rng.choice([0, 1, 1, 2])):
         a, m = rng.choice(models)
         fields = [f for f in m.field_sigs if not f.get_attr_value('primary_key')]
-        k = rng.choice(['retarget', 'explicit_default', 'reorder_indexes', 'retype'])
+        k = rng.choice(['retarget', 'explicit_default', 'reorder_indexes', 'retype', 'meta_pair', 'meta_pair'])
         if k == 'retarget':
             rel = [f for f in fields if f.related_model and f.field_type.__name__ != 'ManyToManyField']
             others = ['%s.%s' % (b.app_id, x.model_name) for b, x in models]
@@ -75,6 +75,17 @@ def edit_new_sig(rng, new):
         elif k == 'reorder_indexes' and len(m.index_sigs) >= 2:
             m.index_sigs.reverse()
             tags.append(k)
+        elif k == 'meta_pair':
+            # two table-level Meta properties of one model change together: an index and a constraint
+            plain = [f.field_name for f in fields if f.field_type.__name__ not in ('ManyToManyField', 'TextField')]
+            if len(plain) >= 2 and not any(ix.name == 'mp_ix' for ix in m.index_sigs):
+                from django.db import models as dm
+                from django_evolution.signature import ConstraintSignature, IndexSignature
+                a1, a2 = rng.sample(plain, 2)
+                m.index_sigs.append(IndexSignature(name='mp_ix', fields=[a1]))
+                m.constraint_sigs.append(ConstraintSignature(name='mp_uq', constraint_type=dm.UniqueConstraint,
+                                                             attrs={'fields': (a1, a2)}))
+                tags.append(k)
         elif k == 'retype':
             c = [f for f in fields if f.field_type.__name__ in ('IntegerField', 'CharField')]
             if c:
